@@ -387,7 +387,9 @@ def accessors(rep, prog):
                 arith = [s_ for b_, i_, s_ in fv.assigns() if s_["rv"]["k"] == "binop" and not fv.blocks[b_]["cleanup"]
                          and s_["rv"]["op"].replace("WithOverflow", "") in ("Add", "Sub", "Mul", "Div", "Rem", "Shl", "Shr", "Offset")]
                 calls = [c for c in fv.calls() if not fv.blocks[c.bb]["cleanup"]]
-                ok = not arith and all(c.name in ("len", "is_empty", "as_slice", "deref", "as_ref", "unwrap", "as_ref") or c.path.startswith("core::panicking") for c in calls)
+                from ..core import full_range_index
+                ok = not arith and all(c.name in ("len", "is_empty", "as_slice", "deref", "as_ref", "unwrap", "as_ref") or c.path.startswith("core::panicking")
+                                       or full_range_index(c) for c in calls)
                 rep.ob("ACCESSOR", inst, ok, "measures its storage directly (%s)" % storage_path(f)[:80], loc=f.loc())
                 continue
             pure = f.key in prog.reslicers
